@@ -190,17 +190,22 @@ def main():
                 g, m, diffs = corr.compare(ops)
                 n_ops = sum(len(x) for x in ops) if ops and isinstance(ops[0], list) else len(ops)
                 stats["corr"][fam] = {"ops": n_ops, "disagreements": len(diffs)}
-                for oid, f, x, y in diffs[:3]:
+                for oid, f, x, y in diffs[:3] + [d for d in diffs[3:] if str(d[2]).startswith(("panic", "crash"))][:10]:
                     diffs_all.append((fam, f, x, y))
         ores = oracles.run(pid, tables, seed, tier, intensify)
         return diffs_all, ores
 
     corr_diffs, ores = one_pass(False)
+    if pid == "C07" and corr_diffs:
+        # an operation on which the real code panicked is a crashing line content: confirm it through the real CLI
+        ores["violations"] = ores["violations"] + oracles.panics_of_correspondence(corr_diffs)
     concrete = [v for v in ores["violations"] if not v.get("correspondence") and not [k for k in kf if k.get("site") == v.get("site")]]
     if (proof_failures or corr_diffs) and not concrete and tier != "thorough":
         log.append("deep pass: an obligation or the correspondence broke and the first pass found no failing input")
         corr_diffs2, ores = one_pass(True)
         corr_diffs = corr_diffs2 or corr_diffs
+        if pid == "C07" and corr_diffs:
+            ores["violations"] = ores["violations"] + oracles.panics_of_correspondence(corr_diffs)
     stats["oracle"] = ores["stats"]
     found_input = False
     model_only = [v for v in ores["violations"] if v.get("correspondence")]
